@@ -264,8 +264,14 @@ Definition deframe (max_frame : N) (bs : list N) : fres :=
   end.
 
 (** [Cfg::max_frame_length] : [None] = the [expect] panics *)
+Definition sat32 (v : N) : N := N.min v 4294967295.
 Definition max_frame_length (chunk_size : N) : option N :=
-  let v := MAX_MSG_LENGTH + chunk_size in if u32 v then Some v else None.
+  let data := MAX_MSG_LENGTH + chunk_size in
+  if u32 data then
+    (* a port data message: a port number and an id per four bytes of chunk size *)
+    let port_data := sat32 (MAX_MSG_LENGTH + sat32 (chunk_size * 2)) in
+    Some (N.max (N.max data port_data) HELLO_MSG_LENGTH)
+  else None.
 
 (** * Handshake bytes: [Reset], then [Hello(PROTOCOL_VERSION, cfg)] *)
 Definition handshake (c : xcfg) : list (option (list N)) :=
